@@ -10,7 +10,8 @@ R13b MAC coverage and counters: sender and receiver MAC the line, the delimiter 
 R13c framing: a message is parsed only when the line delimiter and maclen further octets are
      buffered; the remainder is moved by the amount the buffer pointer is set to,
 R13d bounded read: read(fd, buf+ptr, size-ptr) into buffers allocated with that size,
-R13e length hiding is added on send and removed on receive under the same condition."""
+R13e length hiding is added on send and removed on receive under the same condition,
+R13h every write() of the sending routine continues at base + done with total - done octets."""
 from .. import pathcheck
 from ..facts import walk, AnalysisBroken
 
@@ -31,7 +32,7 @@ def run(ctx):
         recv = scalar_overload(prog, cls, 'Receive')
         send = scalar_overload(prog, cls, 'Send')
         results[cls] = (r13a(ctx, cls, recv), r13b(ctx, cls, send, recv), r13c(ctx, cls, recv), r13d(ctx, cls, recv), r13e(ctx, cls, send, recv),
-                        r13g(ctx, cls, recv))
+                        r13g(ctx, cls, recv), r13h(ctx, cls, send))
     # R13f sibling agreement: both implementations satisfy the same set of rules
     ok = results[CLASSES[0]] == results[CLASSES[1]]
     (ctx.ok if ok else ctx.bad)('R13f', 'R13f:siblings', 'select and nonblock channel agree on every rule verdict' if ok else
@@ -217,6 +218,59 @@ def r13d(ctx, cls, f):
                 oka = True
     (ctx.ok if oka else ctx.bad)('R13d', key0 + ':alloc', 'link buffers are allocated with buf_in_size octets' if oka else 'link buffers are not allocated with buf_in_size', f)
     return okv and oka
+
+
+def r13h(ctx, cls, f):
+    """a message is handed to the transport in pieces: each write() of the sending routine takes
+    `total - done` octets from `base + done` with one and the same progress counter, which the
+    octets written are added to -- after a short write the rest of the message follows, not its head"""
+    a = ctx.analysis(f)
+    T = a.T
+    n = 0
+    allok = True
+    occ = 0
+    for nid, ev in sorted(a.all_events('call'), key=lambda x: (x[1][3], x[0])):
+        if ev[1] != 'write' or len(ev[2]) != 3:
+            continue
+        occ += 1
+        ptr, cnt = T.node(ev[2][1]), T.node(ev[2][2])
+        key = 'R13h:%s:write#%d' % (cls, occ)
+        n += 1
+        done = None
+        if cnt[0] == 'op' and cnt[1] == '-' and T.op(cnt[3]) == 'phi':
+            done = cnt[3]
+        if done is None:
+            allok = False
+            ctx.bad('R13h', key, 'the length handed to write() is not `total - done` with a progress counter: a short write loses or repeats octets', f, line=ev[3])
+        elif not (ptr[0] == 'op' and ptr[1] == '+' and done in (ptr[2], ptr[3])):
+            allok = False
+            ctx.bad('R13h', key, 'write() takes `total - done` octets but not from `base + done` (source %s): after a short write the head of the message is sent again and its tail never' %
+                    T.show(ev[2][1], 3), f, line=ev[3])
+        else:
+            # the counter starts at 0 and grows by what write() returned
+            def srcs(t, seen):
+                nn = T.node(t)
+                if nn[0] != 'phi':
+                    return {t}
+                if t in seen:
+                    return set()
+                seen.add(t)
+                out = set()
+                for y in T.phi_src.get((nn[1], nn[2]), ()):
+                    out |= srcs(y, seen)
+                return out
+            ss = srcs(done, set())
+            adv = [x for x in ss if not T.is_int(x, 0)]
+            good = any(T.is_int(x, 0) for x in ss) and adv and all(
+                T.node(x)[0] == 'op' and T.node(x)[1] == '+' and any(T.op(y) == 'phi' for y in T.node(x)[2:]) and
+                any(T.op(y) == 'callr' and T.node(y)[1] == 'write' for y in T.node(x)[2:]) for x in adv)
+            if good:
+                ctx.ok('R13h', key, 'write() continues at base + done with total - done octets; done starts at 0 and grows by the octets written', f, line=ev[3])
+            else:
+                allok = False
+                ctx.bad('R13h', key, 'the progress counter of this write loop is not `0, then += octets written` (sources: %s)' % ', '.join(T.show(x, 3) for x in ss), f, line=ev[3])
+    ctx.floor('R13h:' + cls, n, 3)
+    return allok
 
 
 def r13g(ctx, cls, f):
